@@ -435,10 +435,12 @@ def mix : List Bool → List Rat → List Rat → List Rat
 
 /-- `objective` is what `Result.objective` holds, `fSol` the user's objective re-evaluated on
 `Result.solution`, `fs` every value the recording proxy saw (user's sign, start points included),
-`calls` the number of proxy calls. -/
-def checkResult (minimize : Bool) (fs : List Rat) (objective fSol : Rat) (evaluations calls : Nat) :
+`starts` the user's objective at the start point(s) handed to the solver, `evaluations` what
+`Result.evaluations` holds (to be compared with the number of proxy calls). -/
+def checkResult (minimize : Bool) (fs starts : List Rat) (objective fSol : Rat) (evaluations : Nat) :
     Bool :=
-  decide (objective = fSol) && fs.all (fun v => if minimize then decide (objective ≤ v) else decide (v ≤ objective))
-    && evaluations == calls
+  decide (objective = fSol)
+    && (fs ++ starts).all (fun v => if minimize then decide (objective ≤ v) else decide (v ≤ objective))
+    && evaluations == fs.length
 
 end Solvor.Search
